@@ -62,17 +62,22 @@ fn run(c: &WorkCase, cfg: &OptCfg) -> RunOut {
     run_script(cfg, &c.init, &bounds, cfg.kt_start == 0., true, Box::new(LandscapePolicy(c.land.clone())))
 }
 
-/// proposals = calls that changed a parameter; trailing = evaluations after the last proposal
-fn count_work(out: &RunOut) -> (u64, u64) {
+/// proposals = evaluations that are not bit-identical to a state the optimiser can be in (decision-agnostic
+/// model); trailing = evaluations after the last proposal. None when that model cannot explain the trace (the
+/// state was corrupted: C06's subject) — the caller then accepts either reading of the last evaluation.
+fn count_work(out: &RunOut) -> Option<(u64, u64)> {
+    if out.shadow_inconsistency.is_some() {
+        return None;
+    }
     let mut p = 0u64;
     let mut last_changed = 0usize;
-    for (ix, st) in out.steps.iter().enumerate() {
+    for (ix, st) in out.shadow_steps.iter().enumerate() {
         if !st.maybe_noop {
             p += 1;
             last_changed = ix + 1;
         }
     }
-    (p, (out.steps.len() - last_changed) as u64)
+    Some((p, (out.shadow_steps.len() - last_changed) as u64))
 }
 
 fn check_amount(out: &RunOut, cfg: &OptCfg, what: &str) -> Result<(), String> {
@@ -89,8 +94,8 @@ fn check_amount(out: &RunOut, cfg: &OptCfg, what: &str) -> Result<(), String> {
         // an early exit is allowed; when and where is judged by the prefix comparison
         lo_excl = -1;
     }
-    if cfg.max_step > 0. {
-        let (p, trailing) = count_work(out);
+    let counted = if cfg.max_step > 0. { count_work(out) } else { None };
+    if let Some((p, trailing)) = counted {
         let p = p as i64;
         if !(p > lo_excl && p <= hi) {
             return Err(format!("{}: {} proposals were evaluated for steps = {}, inner_steps = {} (allowed: more than {} and at most {})", what, p, cfg.steps, cfg.inner, lo_excl.max(-1), hi));
@@ -125,19 +130,23 @@ fn work_oracle(c: &WorkCase, rec: &Rec, _: &Ctx) -> Result<(), String> {
         let full = run(c, &cfg0);
         rec.eval(full.calls_during_run as u64);
         check_amount(&full, &cfg0, "reference run without convergence")?;
-        let (pb, _) = count_work(&out);
-        let (pa, _) = count_work(&full);
-        let nb = if c.cfg.max_step > 0. { pb as usize } else { out.steps.len().min(full.steps.len()) };
+        let counts = if c.cfg.max_step > 0. { count_work(&out).zip(count_work(&full)) } else { None };
+        let (pb, pa) = match counts {
+            Some(((pb, _), (pa, _))) => (pb, pa),
+            None => (0, 0),
+        };
+        let precise = counts.is_some();
+        let nb = if precise { pb as usize } else { out.steps.len().min(full.steps.len()) };
         // prefix, bit for bit
         for i in 0..nb.min(out.steps.len()) {
             if i >= full.steps.len() || !same_bits(&out.steps[i].proposal, &full.steps[i].proposal) {
                 return Err(format!("with convergence = {:e} call #{} evaluates {:?}; the run without a threshold evaluates {:?} there (not a prefix)", thr, i + 1, out.steps[i].proposal, full.steps.get(i).map(|s| s.proposal.clone())));
             }
         }
-        if c.cfg.max_step > 0. && pb > pa {
+        if precise && pb > pa {
             return Err(format!("with convergence = {:e} the run evaluates {} proposals, more than the {} of the run without a threshold", thr, pb, pa));
         }
-        if c.cfg.max_step > 0. && pb < pa {
+        if precise && pb < pa {
             early = true;
             let inner = c.cfg.inner_eff().max(1);
             if pb % inner != 0 {
